@@ -9,6 +9,13 @@
 //   coroutines take their next command from the scenario (lazy program), the worker coroutine is
 //   observed through the interposed clock / condition variable (virtual time).  The state reached
 //   by a step is compared when the next event occurs (nothing runs in between).
+// A scenario spans several scheduler lifetimes (... Destroy, Construct, ... / ... DestroyAfterStart,
+// Restart, ...); in start mode it may end in the middle of a run (paths are cut at a maximal length):
+// the run is then left to finish unobserved.
+// Besides the projection the replayer audits after every step that exactly the sleeps named by the
+// step's output changed state, each exactly once and for good, with exactly the stated outcome
+// (value / no value / await_canceled_exception / the caller's exception), and that a coroutine
+// awaiting a sleep was resumed exactly once and saw the same outcome.
 //
 // header: {"mode":"manual"|"start","coro":bool,"slots":N,"interval":n,"nc":n}
 // projection (built by tools/checks/c12.py proj()):
